@@ -35,7 +35,8 @@ Record kwarg := { kw_name : string; kw_filter : option Z }.
 (* what a public call returns / raises *)
 Inductive out :=
 | OUnit | OX (x : xq) | OZ (z : Z) | OArrs (a : list (list Q))
-| OKw (k : list kwarg) | OCl (c : list pclass) | OErr (e : err).
+| OKw (k : list kwarg) | OCl (c : list pclass) | OErr (e : err)
+| OPipes (p : list (pclass * kwarg)).      (* create_pipelines(): one pipeline per (class, kwargs) pair *)
 
 (* ------------------------------------------------------------------------------------------ *)
 (* round-to-nearest-even to 53 significant bits (normal range only)                             *)
@@ -125,7 +126,7 @@ Definition update_spectral (d : derived) (b : base) : base * option err :=
   end.
 
 (* the five lazily evaluated public properties (instrument.py:49-102) *)
-Inductive gop := GetMin | GetMax | GetBins | GetKwargs | GetClasses.
+Inductive gop := GetMin | GetMax | GetBins | GetKwargs | GetClasses | CreatePipelines.
 
 Definition out_x (o : option xq) : out := match o with Some x => OX x | None => OErr ErrOther end.
 Definition out_z (o : option Z) : out := match o with Some x => OZ x | None => OErr ErrOther end.
@@ -160,6 +161,15 @@ Definition gstep (v : view) (g : gop) (b : base) : base * out :=
     | Missing => (b, OErr ErrAttribute)       (* AttributeError: no attribute _pipeline_classes *)
     | NoneV => (set_classes b (Val (v_cl v)), OCl (v_cl v))
     | Val c => (b, OCl c)
+    end
+  | CreatePipelines =>
+    (* create_pipelines, instrument.py:65-79: fill both caches, then zip(classes, kwargs) *)
+    match b_classes b with
+    | Missing => (b, OErr ErrAttribute)
+    | cc =>
+      let cl := match cc with Val c => c | _ => v_cl v end in
+      let kw := match b_kwargs b with Some k => k | None => v_kw v end in
+      (set_kwargs (set_classes b (Val cl)) (Some kw), OPipes (combine cl kw))
     end
   end.
 
@@ -339,7 +349,8 @@ Definition key_angle (k : ct_key) v := {| k_order := k_order k; k_grating := k_g
 Inductive ct_op :=
 | CtSetOrder (v : Q) | CtSetGrating (v : Q) | CtSetFocal (v : Q) | CtSetSpacing (v : Q)
 | CtSetAngle (v : Q) | CtSetAcc (v : list (Q * Z)) | CtSetMbpp (v : Q) | CtSetName (v : string)
-| CtGet (g : gop) | CtGetW2p | CtGetWl.
+| CtGet (g : gop) | CtGetW2p | CtGetWl
+| CtAssignW2p (v : list (list Q)).    (* the subclass re-declares wavelength_to_pixel without a setter, :327-330 *)
 
 (* the five scalar setters, spectrometer.py:221-284: validate, assign, _update_wavelength_to_pixel *)
 Definition ct_set_order (v : Q) (s : ct_state) : res ct_state :=
@@ -387,6 +398,7 @@ Definition ct_step (o : ct_op) (s : ct_state) : ct_state * out :=
   | CtGet g => let (b, r) := gstep (ct_view s) g (ct_base s) in (ct_with_base s b, r)
   | CtGetW2p => (s, OArrs (ct_w2p s))
   | CtGetWl => (s, OArrs (ct_wl s))
+  | CtAssignW2p _ => (s, OErr ErrAttribute)          (* AttributeError: can't set attribute; nothing changes *)
   end.
 
 Record ct_params := {
@@ -413,13 +425,14 @@ Definition ct_construct (p : ct_params) : res ct_state :=
 (* ---------------------------------------------------------------------------------------- *)
 (* PolychromatorFilter / TrapezoidalFilter / Polychromator (polychromator.py)                 *)
 (* ---------------------------------------------------------------------------------------- *)
-Record pfilter := { f_id : Z; f_name : string; f_min : Q; f_max : Q; f_window : Q }.
+Record pfilter := { f_id : Z; f_name : string; f_min : Q; f_max : Q; f_window : Q; f_central : Q }.
 
 (* PolychromatorFilter.__init__, polychromator.py:40-57: sort; min = first, max = last,
    window = max - min *)
 Definition mk_filter (id : Z) (name : string) (wavelengths : list Q) : res pfilter :=
   match qmin_list wavelengths, qmax_list wavelengths with
-  | Some mn, Some mx => Ok {| f_id := id; f_name := name; f_min := mn; f_max := mx; f_window := rnd (mx - mn) |}
+  | Some mn, Some mx => Ok {| f_id := id; f_name := name; f_min := mn; f_max := mx; f_window := rnd (mx - mn);
+                            f_central := (1 # 2) * rnd (mx + mn) |}      (* :55-57 *)
   | _, _ => Err ErrOther
   end.
 
@@ -568,6 +581,18 @@ Definition calibrate (mn mx smin smax : Q) (w2p : list (list Q)) : res (list (li
   if negb (Qle_bool smin mn) || negb (Qle_bool mx smax) then Err ErrValue
   else Ok (map calibrate_arr w2p).
 End Calibrate.
+
+(* the argument of calibrate: a raysect Spectrum (range, bin centres, samples) or anything else *)
+Inductive cal_arg := ASpectrum (smin smax : Q) (xs ys : list Q) | ANotSpectrum.
+
+(* calibrate as a public call on an instrument whose current range is (mn, mx): :151 isinstance guard (TypeError),
+   :153 range guard (ValueError), :162-168 the loop.  [integral xs ys] is Spectrum.integrate *)
+Definition calibrate_call (integral : list Q -> list Q -> Q -> Q -> Q) (mn mx : Q) (w2p : list (list Q)) (a : cal_arg)
+  : res (list (list Q)) :=
+  match a with
+  | ANotSpectrum => Err ErrType
+  | ASpectrum smin smax xs ys => calibrate (integral xs ys) mn mx smin smax w2p
+  end.
 
 (* the pixels (lower edge, upper edge) of one calibration array *)
 Fixpoint pixels (l : list Q) : list (Q * Q) :=
